@@ -1,4 +1,4 @@
-import TextxVerif.Proofs.RepoEntryFail
+import TextxVerif.Proofs.RepoRepair
 /-!
 # C18 — a failing multi-file load leaves the model repositories clean
 
@@ -156,6 +156,163 @@ theorem C18_preload_fail (S : Spec) (hg : S.glob = true) (fuel : Nat) (calls : L
         ((c = none ∧ st' = st1) ∨ ∃ g j, c = some g ∧ loadMain S fuel st1 g = (st', .fail k, j)) :=
   preload_fail S hg fuel calls st0 st' k hwf h
 
+/-! ## "after the failing file is corrected, the next load succeeds" -/
+
+/-- name `n`, referenced in file `g`, has a **visible definition** for a load that starts from the dict of
+`b`: it is defined in `g` itself, or in a file `g` asks `load_model` for — as that file is cached in `b`,
+or, when it is not cached, as it is on disk now —, or in a builtin model.  (`visible` is the executable
+version the driver reports; the harness compares it with the outcome of the real load.) -/
+def Visible (S : Spec) (b : St) (g : File) (n : Name) : Prop :=
+  n ∈ S.defs g ∨ (∃ h, some h ∈ S.calls g ∧ n ∈ defsNow S b h) ∨ ∃ bl ∈ S.builtins, n ∈ bl
+
+theorem C18_visible_iff (S : Spec) (b : St) (g : File) (n : Name) : visible S b g n = true ↔ Visible S b g n := by
+  unfold visible Visible
+  simp only [Bool.or_eq_true, List.any_eq_true, List.mem_filterMap, id, List.contains_iff_mem, or_assoc]
+  constructor
+  · rintro (h | ⟨h', ⟨c, hc, rfl⟩, hn⟩ | h)
+    · exact Or.inl h
+    · exact Or.inr (Or.inl ⟨_, hc, hn⟩)
+    · exact Or.inr (Or.inr h)
+  · rintro (h | ⟨h', hc, hn⟩ | h)
+    · exact Or.inl h
+    · exact Or.inr (Or.inl ⟨h', ⟨some h', hc, rfl⟩, hn⟩)
+    · exact Or.inr (Or.inr h)
+
+/-- **Why a load fails at reference resolution.**  Whatever the files and faults, a load (either kind of
+main model) that ends with an unresolvable-reference error has, in the non-cached import closure of its
+main model, a file with a reference that has no visible definition.  No other cause exists: not a model
+left over from a failed attempt, not a second instance of a file. -/
+theorem C18_semantic_cause (S : Spec) (fuel : Nat) (st0 : St) (e : Entry) (st' : St) (j : Inst)
+    (hwf : WF st0) (he : e.Admissible S st0) (h : e.run S fuel st0 = (st', .fail .semantic, j)) :
+    ∃ g n, Reach S (base S st0).all.keys e.main g ∧ n ∈ S.refs g ∧ ¬ Visible S (base S st0) g n := by
+  obtain ⟨g, n, hr, hn, hv⟩ := Entry.run_semantic S fuel st0 e (hwf.base S) he h
+  refine ⟨g, n, hr, hn, fun hV => ?_⟩
+  rw [(C18_visible_iff S _ g n).2 hV] at hv
+  cases hv
+
+/-- **The repaired load succeeds.**  In a well-formed state (in particular the state a failed load leaves,
+`C18_entry_clean`), a load whose files have no fault any more, with fuel for a set of files closed under
+imports, and in which every reference of every file of the non-cached import closure has a visible
+definition, ends `ok` (and then `C18_entry_repair` / the C17 theorems describe the result). -/
+theorem C18_repair_succeeds (S' : Spec) (fuel' : Nat) (st' : St) (e' : Entry) (hwf : WF st')
+    (he : e'.Admissible S' st') (hS : NoFault S') (U : List File)
+    (hU : ∀ h ∈ U, ∀ x, some x ∈ S'.calls h → x ∈ U) (hmU : e'.main ∈ U) (hn : U.length ≤ fuel')
+    (hv : ∀ g, Reach S' (base S' st').all.keys e'.main g → ∀ n ∈ S'.refs g, Visible S' (base S' st') g n) :
+    (e'.run S' fuel' st').2.1 = .ok :=
+  Entry.run_succeeds S' hS U hU fuel' st' e' hmU (hwf.base S') he hn
+    (fun g hr n hn' => (C18_visible_iff S' _ g n).2 (hv g hr n hn'))
+
+/-- **Fail, repair, succeed** in one statement: after a load failed (any entry point, any phase, with or
+without a global repository), the next load with corrected files succeeds as soon as every reference in
+its closure has a visible definition. -/
+theorem C18_fail_then_repair (S S' : Spec) (fuel fuel' : Nat) (st0 : St) (e e' : Entry) (st' : St) (k : Kind) (j : Inst)
+    (hwf : WF st0) (hgg : S'.glob = S.glob) (he : e.Admissible S st0) (h : e.run S fuel st0 = (st', .fail k, j))
+    (he' : e'.Admissible S' st') (hS : NoFault S') (U : List File)
+    (hU : ∀ h ∈ U, ∀ x, some x ∈ S'.calls h → x ∈ U) (hmU : e'.main ∈ U) (hn : U.length ≤ fuel')
+    (hv : ∀ g, Reach S' (base S' st').all.keys e'.main g → ∀ n ∈ S'.refs g, Visible S' (base S' st') g n) :
+    (e'.run S' fuel' st').2.1 = .ok := by
+  have hwf' : WF (base S' st') := by
+    cases hg : S.glob with
+    | false => exact wf_base_noGlob S' st' (by rw [hgg, hg])
+    | true =>
+      rw [base_of_glob S' st' (by rw [hgg, hg])]
+      exact (C18_entry_clean S fuel st0 e st' k j hwf hg he h).2
+  exact Entry.run_succeeds S' hS U hU fuel' st' e' hmU hwf' he' hn
+    (fun g hr n hn' => (C18_visible_iff S' _ g n).2 (hv g hr n hn'))
+
+/-- the same with decidable hypotheses: a set `U` of files closed under imports (`closedB`) all of whose
+references are visible (`visible`) -/
+theorem C18_repair_succeeds_univ (S' : Spec) (fuel' : Nat) (st' : St) (e' : Entry) (hwf : WF st')
+    (he : e'.Admissible S' st') (hS : NoFault S') (U : List File) (hU : closedB S' U = true) (hmU : e'.main ∈ U)
+    (hn : U.length ≤ fuel') (hv : unresolved S' (base S' st') U = []) :
+    (e'.run S' fuel' st').2.1 = .ok := by
+  refine Entry.run_succeeds S' hS U (closedB_spec hU) fuel' st' e' hmU (hwf.base S') he hn ?_
+  intro g hr n hn'
+  have hgU := Reach.mem_closed (closedB_spec hU) hmU hr
+  cases hvis : visible S' (base S' st') g n with
+  | true => rfl
+  | false =>
+    exfalso
+    have : (g, n) ∈ unresolved S' (base S' st') U := by
+      unfold unresolved
+      refine List.mem_flatMap.2 ⟨g, hgU, List.mem_map.2 ⟨n, List.mem_filter.2 ⟨hn', by simp [hvis]⟩, rfl⟩⟩
+    rw [hv] at this
+    cases this
+
+/-- **Only the closure matters.**  `NoFault` speaks about every file; this is the same statement with the
+hypothesis restricted to a set `U` of files that contains the main model and is closed under imports
+(`NoFaultOn S' U`): files outside may be broken in any way.  (`C18_repair_succeeds` is the instance
+`NoFault.on`.) -/
+theorem C18_repair_succeeds_on (S' : Spec) (fuel' : Nat) (st' : St) (e' : Entry) (hwf : WF st')
+    (he : e'.Admissible S' st') (U : List File) (hU : ∀ h ∈ U, ∀ x, some x ∈ S'.calls h → x ∈ U)
+    (hS : NoFaultOn S' U) (hmU : e'.main ∈ U) (hn : U.length ≤ fuel')
+    (hv : ∀ g, Reach S' (base S' st').all.keys e'.main g → ∀ n ∈ S'.refs g, Visible S' (base S' st') g n) :
+    (e'.run S' fuel' st').2.1 = .ok :=
+  Entry.run_succeedsU S' U hU hS fuel' st' e' hmU (hwf.base S') he hn
+    (fun g hr n hn' => (C18_visible_iff S' _ g n).2 (hv g hr n hn'))
+
+/-- all hypotheses decidable: `closedB`, `noFaultB`, `unresolved … = []` on a list of files `U` -/
+theorem C18_repair_succeeds_dec (S' : Spec) (fuel' : Nat) (st' : St) (e' : Entry) (hwf : WF st')
+    (he : e'.Admissible S' st') (U : List File) (hU : closedB S' U = true) (hS : noFaultB S' U = true)
+    (hmU : e'.main ∈ U) (hn : U.length ≤ fuel') (hv : unresolved S' (base S' st') U = []) :
+    (e'.run S' fuel' st').2.1 = .ok := by
+  refine Entry.run_succeedsU S' U (closedB_spec hU) (noFaultB_spec hS) fuel' st' e' hmU (hwf.base S') he hn ?_
+  intro g hr n hn'
+  have hgU := Reach.mem_closed (closedB_spec hU) hmU hr
+  cases hvis : visible S' (base S' st') g n with
+  | true => rfl
+  | false =>
+    exfalso
+    have : (g, n) ∈ unresolved S' (base S' st') U := by
+      unfold unresolved
+      refine List.mem_flatMap.2 ⟨g, hgU, List.mem_map.2 ⟨n, List.mem_filter.2 ⟨hn', by simp [hvis]⟩, rfl⟩⟩
+    rw [hv] at this
+    cases this
+
+/-- **The repaired pre-load succeeds** (`GlobalRepo.load_models_in_model_repo` into the global repository,
+e.g. after `C18_preload_fail`): every registered pattern denotes a file, the files of an import-closed set
+`U` containing them have no fault and enough fuel, and every reference in them has a visible definition
+⇒ the pre-load ends `ok` (and `C17_preload` describes the result). -/
+theorem C18_preload_repair_succeeds (S : Spec) (hg : S.glob = true) (fuel : Nat) (calls : List (Option File))
+    (st : St) (hwf : WF st) (U : List File) (hU : ∀ h ∈ U, ∀ x, some x ∈ S.calls h → x ∈ U)
+    (hS : NoFaultOn S U) (hn : U.length ≤ fuel) (hnone : none ∉ calls) (hc : ∀ c, some c ∈ calls → c ∈ U)
+    (hv : ∀ g ∈ U, ∀ n ∈ S.refs g, Visible S st g n) : (preload S fuel st calls).2 = .ok :=
+  preload_succeeds S hg U hU hS fuel hn calls st hwf hnone hc
+    (fun g hgU n hn' => (C18_visible_iff S st g n).2 (hv g hgU n hn'))
+
+/-! ## histories: what an earlier successful load cached stays -/
+
+/-- **Cached models stay, along any history.**  On a metamodel with a global repository, whatever loads
+follow (`ops2`: any entry points, files and faults, failing in any phase or succeeding), the global
+repository after them starts with the repository as it was (`ops1`): same files, same instances, same
+order — entries are only ever appended (by successful loads, `C18_entry_clean`: a failing load appends
+nothing). -/
+theorem C18_history_cache_stays (ops1 ops2 : List (Spec × Nat × Op)) (h : HistOK true (ops1 ++ ops2) St.init) :
+    ∃ N, (runOps (ops1 ++ ops2) St.init).all = (runOps ops1 St.init).all ++ N := by
+  obtain ⟨h1, h2⟩ := histOK_append true ops1 ops2 St.init h
+  rw [runOps_append]
+  refine runOps_prefix ops2 _ ?_ h2
+  let T : Spec := { calls := fun _ => [], defs := fun _ => [], refs := fun _ => [], syntaxErr := fun _ => false,
+                    objFault := fun _ => false, modFault := fun _ => false, builtins := [], glob := true }
+  have := runOps_wf true ops1 St.init (fun T _ => WF.init.base T) h1 T rfl
+  rw [base_of_glob T _ rfl] at this
+  exact this
+
+/-- one failing step in the middle of a history: the repository after it is the repository before it -/
+theorem C18_history_fail_step (ops : List (Spec × Nat × Op)) (S : Spec) (fuel : Nat) (f : File)
+    (h : HistOK true ops St.init) (hg : S.glob = true) (k : Kind)
+    (hf : (loadMain S fuel (runOps ops St.init) f).2.1 = .fail k) :
+    (runOps (ops ++ [(S, fuel, .file f)]) St.init).all = (runOps ops St.init).all := by
+  rw [runOps_append]
+  show (loadMain S fuel (runOps ops St.init) f).1.all = _
+  let T : Spec := { calls := fun _ => [], defs := fun _ => [], refs := fun _ => [], syntaxErr := fun _ => false,
+                    objFault := fun _ => false, modFault := fun _ => false, builtins := [], glob := true }
+  have hwf := runOps_wf true ops St.init (fun T _ => WF.init.base T) h T rfl
+  rw [base_of_glob T _ rfl] at hwf
+  exact (C18_clean S fuel _ f _ k _ hwf hg
+    (show loadMain S fuel (runOps ops St.init) f = (_, .fail k, (loadMain S fuel (runOps ops St.init) f).2.2) by
+      rw [← hf])).1
+
 /-! ## non-vacuity: every phase failing in an imported file and in the main file -/
 
 /-- file 0 imports 1 and 2, file 1 imports 2 and 0; the fault sits in file `v` -/
@@ -215,5 +372,58 @@ example : (preload (exG 0 1) 4 St.init [some 0, some 1]).2 = .fail .syntax ∧
     (preload (exG 0 1) 4 St.init [some 0, some 1]).1.all = [] := by decide
 example : (preload (exG 9 0) 4 St.init [some 0, none]).2 = .fail .io ∧
     (preload (exG 9 0) 4 St.init [some 0, none]).1.all = [(0, 0), (1, 1)] := by decide
+
+/-! ## non-vacuity of "the repaired load succeeds" -/
+
+/-- the state the failing load leaves (model processor fault on the main file, file 3 cached before) -/
+def exSt' : St := (loadMain (exF 3 0) 4 exSt 0).1
+
+theorem exF_nofault : NoFault (exF 9 0) :=
+  ⟨fun g => by simp [exF], fun g => by simp [exF], fun g => by simp [exF], fun g => by
+    simp only [exF]
+    split <;> simp⟩
+
+example : closedB (exF 9 0) [0, 1, 2] = true := by decide
+example : unresolved (exF 9 0) (base (exF 9 0) exSt') [0, 1, 2] = [] := by decide
+-- while the unrepaired files have a reference without visible definition, and that load fails there
+example : unresolved (exF 1 1) (base (exF 1 1) exSt) [0, 1, 2] = [(1, 99)] := by decide
+example : Visible (exF 9 0) (base (exF 9 0) exSt') 0 7 := (C18_visible_iff _ _ _ _).1 (by decide)
+example : ¬ Visible (exF 1 1) (base (exF 1 1) exSt) 1 99 := fun h => by
+  have := (C18_visible_iff _ _ _ _).2 h
+  revert this; decide
+/-- all hypotheses of `C18_repair_succeeds_univ` hold for the repaired reload after the failure -/
+example : (Entry.run (exF 9 0) 4 exSt' (.file 0)).2.1 = .ok :=
+  C18_repair_succeeds_univ (exF 9 0) 4 exSt' (.file 0)
+    (loadMain_wf (exF 3 0) 4 exSt 0 rfl (loadMain_wf (exF 9 0) 4 St.init 3 rfl WF.init (by decide)) (by decide))
+    trivial exF_nofault [0, 1, 2] (by decide) (by decide) (by decide) (by decide)
+
+/-- file 3 still has a model processor fault (`exF 3 3`), but it is outside the closure of file 0: the
+load of file 0 succeeds, by `C18_repair_succeeds_dec` with every hypothesis decided -/
+example : (Entry.run (exF 3 3) 4 exSt' (.file 0)).2.1 = .ok :=
+  C18_repair_succeeds_dec (exF 3 3) 4 exSt' (.file 0)
+    (loadMain_wf (exF 3 0) 4 exSt 0 rfl (loadMain_wf (exF 9 0) 4 St.init 3 rfl WF.init (by decide)) (by decide))
+    trivial [0, 1, 2] (by decide) (by decide) (by decide) (by decide) (by decide)
+example : ¬ NoFault (exF 3 3) := fun h => by have := h.mod 3; revert this; decide
+
+/-- a history: file 3 is cached, a load of file 0 fails (model processor), the repaired load succeeds -/
+def exHist : List (Spec × Nat × Op) := [(exF 9 0, 4, .file 3), (exF 3 0, 4, .file 0), (exF 9 0, 4, .file 0)]
+example : HistOK true exHist St.init := ⟨rfl, by decide, rfl, by decide, rfl, by decide, trivial⟩
+example : (runOps (exHist.take 1) St.init).all = [(3, 0)] := by decide
+example : (runOps (exHist.take 2) St.init).all = [(3, 0)] := by decide
+example : (runOps exHist St.init).all = [(3, 0), (0, 4), (1, 5), (2, 6)] := by decide
+
+/-- after the failing pre-load of `exG 0 1` (file 1 does not parse) the repaired pre-load succeeds: all
+hypotheses of `C18_preload_repair_succeeds` hold (decided) -/
+example : (preload (exG 9 0) 4 (preload (exG 0 1) 4 St.init [some 0, some 1]).1 [some 0, some 1]).2 = .ok :=
+  C18_preload_repair_succeeds (exG 9 0) rfl 4 [some 0, some 1] _
+    (preload_wf (exG 0 1) 4 St.init [some 0, some 1] rfl WF.init (by decide))
+    [0, 1] (closedB_spec (by decide)) (noFaultB_spec (by decide)) (by decide) (by decide)
+    (fun c hc => by
+      have : ∀ x ∈ [some 0, some 1], ∀ c, x = some c → c ∈ [0, 1] := by decide
+      exact this _ hc c rfl)
+    (fun g hg n hn => (C18_visible_iff _ _ g n).1 (by
+      have : ∀ g ∈ [0, 1], ∀ n ∈ (exG 9 0).refs g,
+          visible (exG 9 0) (preload (exG 0 1) 4 St.init [some 0, some 1]).1 g n = true := by decide
+      exact this g hg n hn))
 
 end Repo
